@@ -254,6 +254,12 @@ def run_case(desc, ctx):
         except (G.NkFailed, ValueError) as e:
             res.violate('C02:%s:nk-failed' % tr, 'nk failed: %s' % e, {'samples': samples})
             continue
+        ncol1 = len(next(iter(t1.values()))) if t1 else len(h1.get('names') or [])
+        if ncol1 != len(samples) or len(h1.get('names') or []) != len(samples):
+            # not one column per input position (e.g. an input given twice was taken once)
+            res.violate('C02:%s:columns' % tr, 'k=%d rc=%s: %d input samples, but the build has %d sample columns (names %s)'
+                        % (k, rcmode, len(samples), ncol1, h1.get('names')), {'samples': samples, 'files': base_files})
+            continue
         exp = {kk: [v[i] for i in perm] for kk, v in t1.items()}
         exp_names = ['t%d' % i for i in perm]
         if t2 != exp or h2.get('names') != exp_names or h1.get('k-mers') != h2.get('k-mers'):
